@@ -87,7 +87,7 @@ def check_cfg(ctx, fx, cfg):
     from props.c15 import check_forcing_never_refuses
     check_forcing_never_refuses(ctx, fx, cfg, "R10.4")
     tcs = timers.timer_coroutines(fx)
-    ctx.floor("R10.1", "timer coroutines (%s)" % cfg, len(tcs), 4)
+    ctx.floor("R10.1", "timer coroutines (%s)" % cfg, len(tcs), 2)  # at least one periodic and one one-shot body (APIs may share bodies)
     A = nfa.Alphabet(
         calls=[("sleep", nfa.trait_method(timers.T_SPAWNF, "sleep")), ("submit", is_submit), ("is_err", nfa.callee_ends("::is_err")), ("is_ok", nfa.callee_ends("::is_ok"))],
         adts={"core::result::Result": "Res"}, bools={"is_err", "is_ok"}, fut_types=[("core::pin::Pin<&mut F>", "userfut")])
